@@ -341,3 +341,48 @@ def ctx_family():
     out.append(('iwctx', opener, ('mapctx', 'lenof', ('collect', 'vec', ('cfgrep', 'exactlyctx', ('rep', ('just', [50]), 0, None))))))
     out.append(('iwctx', opener, ('mapctx', ('ctag', 3), ('mwctx', ('any',)))))
     return out
+
+
+def abandon_family():
+    """emit-then-fail bodies inside every kind of abandonable context (the emission must not survive), and the same
+    bodies made to succeed (the emission must be kept)"""
+    xs = [('any',), ('just', [A]), ('oneof', [A, B])]
+    ys = [('just', [B]), ('end',), ('cfail', 3), ('just', [A, A])]
+    out = []
+    rest = ('toslice', ('iterp', ('rep', ('any',), 0, None)))
+    for x in xs:
+        for em in EMITTERS:
+            ex = em(x)
+            for y in ys:
+                bodies = [('andis', ex, y), ('then', ('rewind', ex), y), ('then', ex, y),
+                          ('then', ('recvia', ('then', x, ('just', [B])), ('to', ('vnat', 9), ('empty',))), y),
+                          ('andis', ('then', ex, ('ornot', ('just', [B]))), ('not', y))]
+                for b in bodies:
+                    ctxs = [('ornot', b), ('or', b, ('any',)), ('choices', [b, ('any',)]), ('choicet', [b, ('any',), ('empty',)]),
+                            ('collect', 'vec', ('rep', b, 0, None)), ('collect', 'count', ('rep', b, 0, 2)),
+                            ('then', ('not', b), ('ornot', ('any',))), ('andis', ('ornot', ('any',)), ('ornot', b)),
+                            ('foldl', 'fpair', ('empty',), ('rep', b, 0, None)),
+                            ('collect', 'vec', ('sep', ('any',), b, 0, None, False, True)),
+                            ('recvia', b, ('to', ('vnat', 8), ('ornot', ('any',)))), ('rewind', ('ornot', b)),
+                            ('collect', 'vec', ('ornotit', b)), b]
+                    for c in ctxs:
+                        out.append(('then', c, rest))
+    return out
+
+
+def furthest_family():
+    """an alternative that fails deep in the input next to a wrapped parser that fails earlier / later / succeeds:
+    every wrapper that touches the pending error must keep what the other alternative recorded"""
+    deep = [('then', ('just', [A]), ('then', ('just', [B]), ('just', [B]))), ('then', ('just', [A, B]), ('oneof', [A, EA])),
+            ('ithen', ('just', [A]), ('filter', ('tokis', B), ('any',)))]
+    inners = [('just', [A]), ('just', [B, A]), ('then', ('any',), ('just', [A])), ('collect', 'vec', ('rep', ('just', [A]), 1, None)),
+              ('oneof', [A, B]), ('then', ('just', [A]), ('ornot', ('just', [B])))]
+    wraps = C01_UNARIES + [lambda a: ('validate', 'always', 5, 1, a), lambda a: ('mwstate', a)]
+    out = []
+    for d in deep:
+        for w in wraps:
+            for i in inners:
+                wi = w(i)
+                out.extend([('or', d, wi), ('or', wi, d), ('choices', [d, wi]), ('then', ('ornot', d), wi),
+                            ('then', ('ornot', ('rewind', d)), wi), ('or', d, ('then', wi, ('just', [B])))])
+    return out
